@@ -32,7 +32,10 @@ RULE = ("one PRNG (VERIF_SEED) drives everything.  ad: every integer number type
         "pair of different input kinds (plus some triples) in ONE hdfimport command; many: a file of 45 objects "
         "(hdiff's object table grows at 21 and 41) with element changes around each growth point, both orders, and "
         "the hdiff -b object table; large: a Vdata read by hdp in several pieces with a shorter last one, an image and "
-        "an SDS just above the tools' 1 MiB buffers. "
+        "an SDS just above the tools' 1 MiB buffers; mixed: SD/V objects followed by DF24 / DFR8 rasters (same ref "
+        "under different tags), every object changed in turn; fields: hdp dumpvd -f over several Vdatas with partly "
+        "shared field names, every 2-subset of the name pool; hdfimport tokens in every spelling (zero-padded, "
+        "signed, exponent form); SDS attribute added / removed, Vdata record appended / field renamed. "
         "A case is non-trivial when it lies in the property's domain (comparable objects, in-range values, "
         "NaN-free floats) and the tool ran; distinct by content")
 TRUSTED = ["Coq 8.16.1 kernel (vm_compute only for closed witnesses and finite tables)",
